@@ -30,7 +30,8 @@ RULE = ("api: every sequence of <=3 (quick) / <=4 (thorough) calls over a 13-cal
         "of the output, unowned-fiber operands with their own rank attributes, int / float / bool values, same reuse variants; all "
         "chunked (spec on observations): Z += A with A in chunks of increasing coordinates populated with start_pos fed from "
         "getSavedPos() (first start_pos 0, or none), pre-populated outputs, depth 1-2, all cut points on a 4-coordinate small scope; all "
-        "assign (spec on observations): copy / selection / project kernels (`z_ref <<= a_val`) under leaf defaults 7, -1, 0 with stored zeros and "
+        "ref (spec on observations): kernels that fetch the output element with getPayloadRef() instead of populate (mat-vec, "
+        "element-wise, copy, mat-mat with getPayloadRef(m, n) and with a fetched row fiber), iter and all trace types; assign (spec on observations): copy / selection / project kernels (`z_ref <<= a_val`) under leaf defaults 7, -1, 0 with stored zeros and "
         "explicit defaults, traces incl. project_<n>; all kernel kinds also compare output attributes (ids, shape, default, formats) and the operands left behind off vs on. non-trivial api case = a session with at least one "
         "counter or started trace; non-trivial kernel case = at least one loop body ran and a trace or counter moved")
 
@@ -330,7 +331,7 @@ def gen_api(rng, tier):
         for combo in itertools.product(ALPHABET, repeat=n):
             ops = prelude + [list(o) for o in combo]
             yield {"prop": PROP, "kind": "api", "ops": ops + [["endCollect"]], "sess_start": -1}
-    nrand = 1500 if tier == "quick" else 60000
+    nrand = 1200 if tier == "quick" else 60000
     for i in range(nrand):
         ops = []
         for _ in range(rng.choice([0, 1, 1, 2, 3])):
@@ -504,11 +505,11 @@ def gen_kernel(rng, tier):
                 if k % 7 == 0:
                     c["repeat"] = 2
                 yield c
-    reps = 22 if tier == "quick" else 1200
+    reps = 16 if tier == "quick" else 1200
     for loops, out, opr in CLASSIC:
         for _ in range(reps):
             yield _mk_kernel(rng, list(loops), list(out), [list(o) for o in opr])
-    nrand = 1200 if tier == "quick" else 60000
+    nrand = 1000 if tier == "quick" else 60000
     for _ in range(nrand):
         loops, out, opr = _random_shape(rng)
         yield _mk_kernel(rng, loops, out, opr)
@@ -586,7 +587,7 @@ def _mk_program(rng, c6):
 def gen_program(rng, seed, tier):
     K6 = _k6()
     base = [c for c in K6.gen(seed, "quick") if K6.well_formed(c)]
-    want = 750 if tier == "quick" else 30000
+    want = 600 if tier == "quick" else 30000
     stride = max(1, len(base) // want)
     for c6 in base[rng.randrange(stride)::stride]:
         yield _mk_program(rng, c6)
@@ -903,6 +904,118 @@ def run_assign(case):
     return _run_measured(case, _AssignRunner)
 
 
+# ---------------------------------------------------------------------------------------
+# kernels that reach the output through references (getPayloadRef) instead of populate
+# ---------------------------------------------------------------------------------------
+
+REF_SHAPES = {   # name: (operand rank lists, output ranks)
+    "mv": ([["M", "K"], ["K"]], ["M"]),          # z_ref = z_m.getPayloadRef(m) fetched once per row
+    "ew": ([["M"], ["M"]], ["M"]),
+    "copy": ([["M"]], ["M"]),
+    "mm": ([["M", "K"], ["K", "N"]], ["M", "N"]),    # z_m.getPayloadRef(m, n) in the innermost loop
+    "mm2": ([["M", "K"], ["K", "N"]], ["M", "N"]),   # z_n = z_m.getPayloadRef(m), then z_n.getPayloadRef(n)
+}
+
+
+def _mk_ref(rng, shape=None):
+    shape = shape or rng.choice(list(REF_SHAPES))
+    opr, out = REF_SHAPES[shape]
+    n = rng.choice([2, 3, 4])
+    pool = (1, 2, -1, 3, 0)
+    trees = [H.gen_tree(rng, len(r), n, pool, 0, p_absent=rng.choice([0.1, 0.3, 0.5])) for r in opr]
+    names = ["M", "K", "N"]
+    case = {"prop": PROP, "kind": "ref", "style": "ref-" + shape, "shape": shape, "n": n, "trees": trees,
+            "z": H.gen_tree(rng, len(out), n, pool, 0, p_absent=0.6) if rng.random() < 0.3 else [],
+            "zdecl": rng.random() < 0.7, "ranks": names, "out": out,
+            "pfx": rng.choice(PFX), "fmtU": [], "nU": 0, "solo_u": [], "vals": "int", "tiled": 0, "bare": 0}
+    u = rng.random()
+    case["traces"] = ([] if u < 0.08 else [[v, "iter"] for v in names] if u < 0.45 else
+                      [[v, t] for v in names for t in TYPES] if u < 0.6 else
+                      [[v, t] for v in names for t in TYPES if rng.random() < 0.4])
+    case["hist"] = _hist(rng, case["pfx"], names) if rng.random() < 0.3 else []
+    u = rng.random()
+    if u < 0.08:
+        case["repeat"] = 2
+    elif u < 0.16:
+        case["inside"] = 1
+    return case
+
+
+def gen_ref(rng, tier):
+    # small scope: every pair of leaf fibers over 3 coordinates x {absent, 0, 1} for the element-wise kernel, every fiber for copy
+    fibs = list(H.all_leaf_fibers(3, [0, 1]))
+    for a in fibs:
+        for b in fibs[:: (3 if tier == "quick" else 1)]:
+            c = _mk_ref(rng, "ew")
+            c["n"], c["trees"], c["z"], c["hist"] = 3, [a, b], [], []
+            c["traces"] = [["M", "iter"]]
+            c.pop("repeat", None)
+            yield c
+    for _ in range(300 if tier == "quick" else 15000):
+        yield _mk_ref(rng)
+
+
+class _RefRunner:
+    @staticmethod
+    def build_ops(case):
+        ft = H.ft()
+        n = case["n"]
+        opr, _ = REF_SHAPES[case["shape"]]
+        return [ft.Tensor.fromFiber(rank_ids=list(r), fiber=H.build_fiber(t, len(r), 0), shape=[n] * len(r))
+                for r, t in zip(opr, case["trees"])]
+
+    @staticmethod
+    def new_z(case, pre=False):
+        ft = H.ft()
+        out, n = case["out"], case["n"]
+        kw = {"shape": [n] * len(out)} if (case["zdecl"] or pre) else {}
+        if case["z"] and not pre:
+            return ft.Tensor.fromFiber(rank_ids=list(out), fiber=H.build_fiber(case["z"], len(out), 0), **kw)
+        return ft.Tensor(rank_ids=list(out), **kw)
+
+    @staticmethod
+    def execute(case, ops, z, bodies):
+        shape = case["shape"]
+        z_m = z.getRoot()
+
+        def hit(r):
+            bodies[r] = bodies.get(r, 0) + 1
+
+        if shape == "mv":
+            a_m, b_k = ops[0].getRoot(), ops[1].getRoot()
+            for m, a_k in a_m:
+                hit("M")
+                z_ref = z_m.getPayloadRef(m)
+                for _k, (a_val, b_val) in a_k & b_k:
+                    hit("K")
+                    z_ref += a_val * b_val
+        elif shape == "ew":
+            for m, (a_val, b_val) in ops[0].getRoot() & ops[1].getRoot():
+                hit("M")
+                z_ref = z_m.getPayloadRef(m)
+                z_ref += a_val * b_val
+        elif shape == "copy":
+            for m, a_val in ops[0].getRoot():
+                hit("M")
+                z_ref = z_m.getPayloadRef(m)
+                z_ref <<= a_val
+        else:
+            a_m, b_k = ops[0].getRoot(), ops[1].getRoot()
+            for m, a_k in a_m:
+                hit("M")
+                z_n = z_m.getPayloadRef(m) if shape == "mm2" else None
+                for _k, (a_val, b_n) in a_k & b_k:
+                    hit("K")
+                    for n_, b_val in b_n:
+                        hit("N")
+                        z_ref = z_n.getPayloadRef(n_) if shape == "mm2" else z_m.getPayloadRef(m, n_)
+                        z_ref += a_val * b_val
+
+
+def run_ref(case):
+    return _run_measured(case, _RefRunner)
+
+
 def gen(seed, tier):
     rng = random.Random(seed)
     yield from gen_api(rng, tier)
@@ -914,6 +1027,8 @@ def gen(seed, tier):
     yield from gen_chunked(rng, tier)
     rng = random.Random(seed + 4)
     yield from gen_assign(rng, tier)
+    rng = random.Random(seed + 5)
+    yield from gen_ref(rng, tier)
 
 
 # ---------------------------------------------------------------------------------------
@@ -1235,6 +1350,8 @@ def run(case):
         return run_chunked(case)
     if case["kind"] == "assign":
         return run_assign(case)
+    if case["kind"] == "ref":
+        return run_ref(case)
     return run_program(case) if case["kind"] == "program" else run_kernel(case)
 
 
@@ -1246,7 +1363,7 @@ def nontrivial(case, verdict):
         return "session" in t and bool(t & {"started", "history", "rejected", "never-started"})
     if case["kind"] in ("program", "chunked"):
         return "effectual" in t
-    if case["kind"] == "assign":
+    if case["kind"] in ("assign", "ref"):
         return "ran-bodies" in t
     return bool(t & {"mul", "add", "traced-iterated", "revisit"})
 
@@ -1280,7 +1397,7 @@ def _classes(why):
 
 
 def signature(case, verdict, failed):
-    kind = "kernel" if case["kind"] in ("program", "chunked", "assign") else case["kind"]      # programs are kernels: same finding classes
+    kind = "kernel" if case["kind"] in ("program", "chunked", "assign", "ref") else case["kind"]      # programs are kernels: same finding classes
     cls = _classes(verdict.get("why", "")) if "spec" in failed else []
     sides = sorted(f.split(":")[0] for f in failed if f != "spec")
     new = [c for c in cls if c not in DOCUMENTED] + sides
@@ -1332,7 +1449,7 @@ def shrink_candidates(case):
             c = dict(case)
             c.pop(key)
             yield c
-    if case["kind"] == "assign":
+    if case["kind"] in ("assign", "ref"):
         for k in range(len(case["trees"])):
             for t2 in _tree_shrinks(case["trees"][k]):
                 c = dict(case)
